@@ -364,9 +364,13 @@ def r26(ctx, rep):
         g = ctx.repo.cls(c).methods.get("maxcv")
         if g is None:
             raise AnalysisError(f"{c}.maxcv not found")
+        rets_ = []
         for r in vf.returns(g):
+            # `return A if c else B` is the same as two returns
+            rets_ += [r.body, r.orelse] if isinstance(r, ast.IfExp) else [r]
+        for r in rets_:
             n += 1
-            desc = f"{g.local}:{r.lineno} return {norm(r)[:60]}"
+            desc = f"{g.local}:{getattr(r, 'lineno', 0)} return {norm(r)[:60]}"
             ok = False
             if isinstance(r, ast.Call):
                 d = dotted(r.func) or ""
